@@ -391,6 +391,51 @@ func CheckC15Registry(run *harness.Run) ([]harness.Finding, map[string]interface
 	for L := 1; L <= maxLen; L++ {
 		rec(nil, L)
 	}
+	// long random sequences over a wide range of views: dozens of contexts live at once (one per view a proposal was validated
+	// for), then the cancellations; the same laws, checked after every step
+	longSeqs, maxLive := run.Pick(600, 12000), 0
+	lrng := rand.New(rand.NewSource(run.Seed*31 + 15))
+	for i := 0; i < longSeqs; i++ {
+		n := 40 + lrng.Intn(160)
+		var ops []cop
+		live := 0
+		for k := 0; k < n; k++ {
+			h := uint64(1 + lrng.Intn(3))
+			v := uint64(lrng.Intn(80))
+			if lrng.Intn(12) == 0 {
+				v = math.MaxUint64
+			}
+			switch r := lrng.Intn(20); {
+			case r < 16:
+				ops = append(ops, cop{0, h, v})
+				live++
+			case r < 19 || k < n/2:
+				ops = append(ops, cop{1, h, v})
+			default:
+				ops = append(ops, cop{Kind: 2})
+			}
+		}
+		if live > maxLive {
+			maxLive = live
+		}
+		seqs++
+		rule, detail, issued, cancelled := runRegistrySeq(ops)
+		if issued > 0 && cancelled > 0 {
+			nontrivial++
+		}
+		if rule != "" {
+			byRule[rule]++
+			if byRule[rule] <= 2 {
+				var l []string
+				for _, o := range ops {
+					l = append(l, o.String())
+				}
+				path := harness.ReplayPath("C15", fmt.Sprintf("%s-long-%d", rule, byRule[rule]))
+				harness.WriteJSON(path, map[string]interface{}{"property": "C15", "rule": rule, "detail": detail, "ops": l})
+				findings = append(findings, harness.Finding{Prop: "C15", Rule: rule, Detail: detail + fmt.Sprintf("; in a sequence of %d operations (replay file)", len(ops)), Replay: path})
+			}
+		}
+	}
 	// concurrent histories
 	hists := run.Pick(300, 6000)
 	linOK, linUnknown, opsTotal := 0, 0, 0
@@ -423,6 +468,8 @@ func CheckC15Registry(run *harness.Run) ([]harness.Finding, map[string]interface
 	ev := map[string]interface{}{
 		"registry_sequences_exhaustive":            seqs,
 		"registry_max_sequence_length":             maxLen,
+		"registry_long_random_sequences":           longSeqs,
+		"registry_long_sequences_max_For_calls":    maxLive,
 		"registry_sequences_with_issue_and_cancel": nontrivial,
 		"registry_samples":                         samples,
 		"concurrent_histories":                     hists,
